@@ -335,6 +335,13 @@ func (u *U) Sample(v interface{}) {
 // violation class for known-finding matching; detail is a deterministic,
 // human-readable description of the exact case.
 func (u *U) Violation(site, shape, detail string) {
+	// very long operands (64 KiB strings) are not worth printing in full
+	if len(detail) > 6000 {
+		detail = detail[:3000] + " ...[" + strconv.Itoa(len(detail)-6000) + " bytes omitted]... " + detail[len(detail)-3000:]
+	}
+	if len(shape) > 1500 {
+		shape = shape[:1500] + "..."
+	}
 	if len(u.viol) < 50 {
 		u.viol = append(u.viol, Violation{Site: site, Shape: shape, Detail: detail, Unit: u.Idx})
 	}
